@@ -460,6 +460,37 @@ opt-level = 0
 incremental = false
 "#;
 
+fn watchdog_secs() -> u64 {
+    std::env::var("VERIF_GEN_WATCHDOG_SECS").ok().and_then(|v| v.parse().ok()).unwrap_or(300)
+}
+
+/// runs a generated program with its output in files (no pipe to fill up) under a generous
+/// wall-clock watchdog; `Ok(None)` = killed by the watchdog
+fn run_with_watchdog(exe: &str, outbase: &str) -> std::io::Result<Option<(Option<i32>, String, String)>> {
+    let (outp, errp) = (format!("{outbase}.stdout"), format!("{outbase}.stderr"));
+    let mut child = std::process::Command::new(exe)
+        .stdin(std::process::Stdio::null())
+        .stdout(std::fs::File::create(&outp)?)
+        .stderr(std::fs::File::create(&errp)?)
+        .spawn()?;
+    let started = std::time::Instant::now();
+    let status = loop {
+        match child.try_wait()? {
+            Some(st) => break Some(st),
+            None if started.elapsed() > std::time::Duration::from_secs(watchdog_secs()) => {
+                let _ = child.kill();
+                let _ = child.wait();
+                break None;
+            }
+            None => std::thread::sleep(std::time::Duration::from_millis(20)),
+        }
+    };
+    let r = status.map(|st| (st.code(), std::fs::read_to_string(&outp).unwrap_or_default(), std::fs::read_to_string(&errp).unwrap_or_default()));
+    let _ = std::fs::remove_file(&outp);
+    let _ = std::fs::remove_file(&errp);
+    Ok(r)
+}
+
 pub struct GenResult {
     pub outcomes: Vec<Outcome>,
     pub inconclusive: Option<String>,
@@ -521,13 +552,17 @@ pub fn run_positive(verif_dir: &str, seed: u64, n: usize, shards: usize) -> GenR
     let mut mismatches: Vec<String> = vec![];
     let mut checks = 0u64;
     for sh in 0..shards {
-        let run = std::process::Command::new(format!("{dir}/target/debug/pos_{sh}")).output();
+        let run = run_with_watchdog(&format!("{dir}/target/debug/pos_{sh}"), &format!("{dir}/target/debug/pos_{sh}"));
         match run {
             Err(e) => return GenResult { outcomes: vec![], inconclusive: Some(format!("generated program could not be run: {e}")) },
-            Ok(o) => {
-                let out = String::from_utf8_lossy(&o.stdout);
+            // a wall-clock watchdog is never a verdict: a generated program runs for milliseconds, one that is
+            // still running after minutes hangs in a call (its deadlines are an hour away) or the machine is
+            // overloaded; either way nothing was observed about routing
+            Ok(None) => return GenResult { outcomes: vec![], inconclusive: Some(format!("generated program pos_{sh} did not finish within {} s of real time (watchdog; killed): no verdict on its services", watchdog_secs())) },
+            Ok(Some((code, stdout, stderr))) => {
+                let out = stdout;
                 if !out.contains("DONE") {
-                    mismatches.push(format!("shard {sh}: the generated driver did not finish (status {:?}): {}", o.status.code(), String::from_utf8_lossy(&o.stderr).lines().last().unwrap_or("")));
+                    mismatches.push(format!("shard {sh}: the generated driver did not finish (status {:?}): {}", code, stderr.lines().last().unwrap_or("")));
                 }
                 for l in out.lines() {
                     if let Some(m) = l.strip_prefix("MISMATCH ") {
